@@ -284,6 +284,31 @@ def _p7(self, v):
 PREPARERS = [_p0, _p1, _p2, _p3, _p4, _p5, _p6, _p7]
 
 
+# validated types (mirrored in C05Proto.lean: `predPool`); the predicates below are the harness' own
+VALID_PRED = [
+    lambda v: isinstance(v, int) and v >= 0,
+    lambda v: isinstance(v, int) and 0 < v <= 10,
+    lambda v: isinstance(v, str) and v != "",
+    lambda v: type(v) is int and v % 2 == 0,
+]
+VALID_REGISTRY = {}      # id(validated type object) -> (type object, predicate index)
+
+
+def make_validated(pid):
+    from spec_classes.types import bounded, validated
+
+    if pid == 0:
+        t = bounded(int, ge=0)
+    elif pid == 1:
+        t = bounded(int, gt=0, le=10)
+    elif pid == 2:
+        t = validated(lambda v: isinstance(v, str) and v != "", "nonempty")
+    else:
+        t = validated(lambda v: type(v) is int and v % 2 == 0, "even")
+    VALID_REGISTRY[id(t)] = (t, pid)
+    return t
+
+
 def transform_fn(tok, classes=None):
     """transform token string (`inc`, `cst <value>`, …) -> pure Python function"""
     if tok is None or tok == "_":
@@ -341,6 +366,8 @@ def ty_tokens(t) -> str:
         return f"dict {ty_tokens(t[1])} {ty_tokens(t[2])}"
     if k == "spec":
         return f"spec {t[1]}"
+    if k == "valid":
+        return f"valid {t[1]} {ty_tokens(t[2])}"
     raise ValueError(t)
 
 
@@ -372,6 +399,12 @@ def ty_real(t, classes):
         return typing.Dict[ty_real(t[1], classes), ty_real(t[2], classes)]
     if k == "spec":
         return classes[t[1]]
+    if k == "valid":
+        # one type object per predicate and family: shared by all attributes / classes of the family
+        vc = classes.setdefault("__valid__", {})
+        if t[1] not in vc:
+            vc[t[1]] = make_validated(t[1])
+        return vc[t[1]]
     raise ValueError(t)
 
 
@@ -409,9 +442,30 @@ def effective_attrs(fam, cid):
             if ad["name"] == int(a):
                 ad["d"] = d
                 ad["dk"] = "value"
+    for a, d in (cd.get("reann") or {}).items():
+        # re-annotated (same type) in this spec subclass: it now owns the attribute; position is kept
+        for ad in out:
+            if ad["name"] == int(a):
+                ad["owner"] = cid
+                if d is not None:
+                    ad["d"] = d
+                    ad["dk"] = "value"
+                elif ad.get("dk") not in ("value", None, "none"):
+                    pass
+                else:
+                    # no value in the subclass body: the base class attribute (its default) is still found
+                    pass
     for ad in cd.get("attrs", []):
-        out.append(dict(ad))
+        out.append(dict(ad, owner=cid))
     return out
+
+
+def init_order(fam, cid):
+    """attribute names in the order InitMethod assigns them: owners root-most first, metadata order within"""
+    eff = effective_attrs(fam, cid)
+    chain = [cid] + supers(fam, cid)
+    rank = {c: len(chain) - i for i, c in enumerate(chain)}
+    return [a["name"] for a in sorted(eff, key=lambda a: rank.get(a.get("owner"), 0))]
 
 
 def effective_key(fam, cid):
@@ -439,7 +493,7 @@ def class_lines(fam):
         key = effective_key(fam, cid)
         sup = supers(fam, cid)
         parts = ["class", str(cid), "_" if key is None else str(key), str(len(sup))] + [str(s) for s in sup]
-        parts += [str(len(attrs))] + [str(a["name"]) for a in attrs]
+        parts += [str(len(attrs))] + [str(x) for x in init_order(fam, cid)]
         parts += [str(len(attrs))]
         for a in attrs:
             parts += [
@@ -449,7 +503,8 @@ def class_lines(fam):
                 "_" if a.get("prep") is None else str(a["prep"]),
                 "_" if a.get("ip") is None else str(a["ip"]),
                 a["d"] if a.get("d") is not None and a.get("dk") in ("value", "attr", "field") else "_",
-            ]
+                str(len(a.get("inv") or [])),
+            ] + [str(x) for x in (a.get("inv") or [])]
         lines.append(" ".join(parts))
     return lines
 
@@ -467,13 +522,27 @@ def build_family(fam):
         ns = {"__module__": "verif_family", "__qualname__": f"C{cid}"}
         for a, d in (cd.get("over") or {}).items():
             ns[attr_name(int(a))] = decode(d, classes)
+        reann = {}
+        for a, d in (cd.get("reann") or {}).items():
+            base_ad = [x for x in effective_attrs(fam, cd["base"]) if x["name"] == int(a)][0]
+            reann[attr_name(int(a))] = ty_real(base_ad["ty"], classes)
+            if d is not None:
+                ns[attr_name(int(a))] = decode(d, classes)
         if cd["kind"] == "spec":
-            ann = {}
+            ann = dict(reann)
             for ad in cd.get("attrs", []):
                 name = attr_name(ad["name"])
                 ann[name] = ty_real(ad["ty"], classes)
                 dk, d = ad.get("dk", "none"), ad.get("d")
-                if dk == "value":
+                inv = [attr_name(x) for x in (ad.get("inv") or [])]
+                if inv:
+                    if dk in ("factory", "attrfactory", "fieldfactory"):
+                        ns[name] = Attr(default_factory=(lambda d=d: decode(d, classes)), invalidated_by=inv)
+                    elif dk in ("value", "attr", "field"):
+                        ns[name] = Attr(default=decode(d, classes), invalidated_by=inv)
+                    else:
+                        ns[name] = Attr(invalidated_by=inv)
+                elif dk == "value":
                     ns[name] = decode(d, classes)
                 elif dk == "factory" or dk == "attrfactory":
                     ns[name] = Attr(default_factory=(lambda d=d: decode(d, classes)))
